@@ -24,7 +24,10 @@ CONSTANTS NK,        \* keys are 1..NK
           Overhead,  \* fixed per-node size
           MaxVers,   \* immutable versions created
           MaxMut,    \* updates of the mutable treap
-          MaxMoves   \* iterator moves
+          MaxMoves,  \* iterator moves
+          InitKeys,  \* keys present (with value InitVal) in the first immutable version
+          InitVal,
+          Put2       \* TRUE: two-pair Put is exercised
 
 VARIABLES vers,   \* sequence of immutable versions (key -> value functions)
           mut,    \* contents of the mutable treap
@@ -69,9 +72,10 @@ Obs == [vers |-> [i \in DOMAIN vers |-> Render(vers[i])],
         it   |-> [st |-> it.st, k |-> it.k, fresh |-> it.fresh,
                   v |-> IF it.st = "at" /\ it.fresh /\ it.k \in DOMAIN mut THEN <<mut[it.k]>> ELSE <<>>]]
 
-Init == /\ vers = <<EmptyFn>> /\ mut = EmptyFn /\ it = NoIt
+Init == /\ vers = <<[k \in InitKeys |-> InitVal]>> /\ mut = EmptyFn /\ it = NoIt
         /\ cnt = [mu |-> 0, mv |-> 0]
-        /\ last = [a |-> "Init", nk |-> NK, vals |-> Vals, keylen |-> KeyLen, vallen |-> ValLen]
+        /\ last = [a |-> "Init", nk |-> NK, vals |-> Vals, keylen |-> KeyLen, vallen |-> ValLen,
+                   init |-> SelectSeq([i \in 1..NK |-> i], LAMBDA k : k \in InitKeys), initval |-> InitVal]
         /\ obs = Obs
 
 \* ---- immutable
@@ -111,7 +115,7 @@ MDelete(k) ==
 
 \* ---- iterator
 NewIter(lo, hi) ==
-  /\ it.st = "none" /\ lo < hi
+  /\ it.st = "none" /\ lo < hi /\ MaxMoves > 0
   /\ it' = [NoIt EXCEPT !.st = "new", !.lo = lo, !.hi = hi]
   /\ last' = [a |-> "NewIter", lo |-> lo, hi |-> hi]
   /\ UNCHANGED <<vers, mut, cnt>>
@@ -136,7 +140,7 @@ Prev == Move([a |-> "Prev"],
 
 Next_ ==
   /\ \/ \E v \in DOMAIN vers, k \in Keys, x \in Vals : IPut(v, k, x)
-     \/ \E v \in DOMAIN vers, k1, k2 \in Keys, x1, x2 \in Vals : IPut2(v, k1, x1, k2, x2)
+     \/ (Put2 /\ \E v \in DOMAIN vers, k1, k2 \in Keys, x1, x2 \in Vals : IPut2(v, k1, x1, k2, x2))
      \/ \E v \in DOMAIN vers, k \in Keys : IDelete(v, k)
      \/ \E k \in Keys, x \in Vals : MPut(k, x)
      \/ \E k \in Keys : MDelete(k)
